@@ -23,4 +23,8 @@ let () =
   register "css" (function [cyc; n; q; coins; out] ->
       (res_tok css_tok (create_stack_secret (cyc = "1") (nat_of_int (int_of_string n)) (z_of_hex q) (bytes_of_tok coins)), out)
     | _ -> failwith "arity");
+  register "rcache" (function [n; q; ms; coins; out] ->
+      (res_tok (fun (vs, rest) -> "ret:" ^ tok_of_zlist vs ^ left rest)
+         (cache_run (nat_of_int (int_of_string n)) (z_of_hex q) (zlist_of_tok ms) (bytes_of_tok coins)), out)
+    | _ -> failwith "arity");
   main ()
